@@ -126,6 +126,25 @@ def check_record(args):
             _, ll = listing(m)
             if ll != [x + 1 for x in exp]:
                 out['mism'].append(('load-listing', dict(args=args_, listed=ll, spec=[x + 1 for x in exp])))
+        # ---- a distributed load given for ONE object covers every pulse with a half segment on that object
+        #      (its own rows and the junction pulses other objects own at its ends), each exactly once ----
+        for o in range(len(opulses)):
+            exp = sorted(q for q, pu in enumerate(rec['pulses']) if o + 1 in (pu['sa'][0], pu['sb'][0]))
+            if not exp:
+                continue
+            opt = rnd.choice(['--skin-effect-conductivity=5e7,%d', '--insulation-load=0.004,3,%d']) % tags[o]
+            m, txt = run_main(base + ['--excitation-pulse=1', opt])
+            if not isinstance(m, Mininec):
+                out['mism'].append(('valid-load-rejected', dict(args=[opt], msg=txt[:200])))
+                continue
+            out['nforms'] += 1
+            got = [int(p.idx) for l in m.loads for p in l.pulses]
+            if sorted(got) != exp:
+                out['mism'].append(('distributed-load-pulses', dict(args=[opt], code=sorted(got), spec=exp,
+                                                                    twice=len(got) != len(set(got)))))
+            _, ll = listing(m)
+            if sorted(ll) != [x + 1 for x in exp]:
+                out['mism'].append(('distributed-load-listing', dict(args=[opt], listed=ll, spec=[x + 1 for x in exp])))
         for b in (['--attach-load=1,%d' % (N + 1)], ['--attach-load=1,0'],
                   ['--attach-load=1,1,%d' % (max(tags) + 1)],
                   ['--attach-load=1,%d,%d' % (len(opulses[0]) + 1, tags[0])]):
@@ -135,6 +154,11 @@ def check_record(args):
         # ---- several sources and loads, all-absolute vs mixed forms ----
         ns = min(N, rnd.choice([2, 3]))
         qs = rnd.sample(range(N), ns)
+        gq = [q for q, pu in enumerate(rec['pulses']) if pu['gnd'] != -1]
+        if gq and ns >= 2 and rnd.random() < 0.6:
+            # a pulse on a grounded wire end named first, ordinary pulses after it
+            g0 = rnd.choice(gq)
+            qs = [g0] + [q for q in qs if q != g0][:ns - 1]
         volts = ['%d%+dj' % (rnd.randint(1, 9), rnd.randint(-5, 5)) for _ in qs]
         lq = [rnd.randrange(N) for _ in range(2)]
         a_abs, a_mix = [], []
@@ -171,7 +195,22 @@ def check_record(args):
             m1.compute_rhs(); m2.compute_rhs()
             if not np.array_equal(m1.rhs, m2.rhs):
                 out['mism'].append(('forms-differ-rhs', dict(args=a_mix)))
-            exp_rhs = np.zeros(N, dtype=complex)
+            # exactly the named pulses are driven, each with its own voltage: whatever the order in which
+            # the sources are named
+            nz = [int(q) for q in np.nonzero(m1.rhs)[0]]
+            if nz != sorted(qs):
+                out['mism'].append(('rhs-support', dict(driven=nz, named=sorted(qs))))
+            order = list(range(len(qs)))[::-1]
+            a_rev = []
+            for i_ in order:
+                a_rev += ['--excitation-pulse=%d' % (qs[i_] + 1), '--excitation-voltage=' + volts[i_]]
+            m3, t3 = run_main(base + a_rev + a_abs[2 * len(qs):])
+            if isinstance(m3, Mininec):
+                m3.compute_rhs()
+                if not np.allclose(m3.rhs, m1.rhs, rtol=1e-14, atol=0):
+                    out['mism'].append(('rhs-depends-on-source-order', dict(args=a_abs, grounded_first=qs[0] in gq)))
+            else:
+                out['mism'].append(('valid-multi-rejected', dict(abs=a_rev, msg=t3[:300])))
             pairs = [frozenset((o['p1'], o['p2'])) for o in inp]
             if mode == 'solve' and len(set(pairs)) == len(pairs):
                 # (overlapping wires between the same two points make the
